@@ -329,6 +329,7 @@ class Array(
     def layout(self, layout):
         if isinstance(layout, (ak.layout.Content, ak.partition.PartitionedArray)):
             self._layout = layout
+            self._caches = ak._util.find_caches(self._layout)
             self._numbaview = None
         else:
             raise TypeError(
@@ -1643,6 +1644,7 @@ class Record(ak._connect._numpy.NDArrayOperatorsMixin):
     def layout(self, layout):
         if isinstance(layout, ak.layout.Record):
             self._layout = layout
+            self._caches = ak._util.find_caches(self._layout)
             self._numbaview = None
         else:
             raise TypeError(
